@@ -347,18 +347,19 @@ class UAIWriter(object):
         """
         Returns the UAI file as a string.
         """
-        self.network += self.no_nodes + "\n"
+        network = self.network
+        network += self.no_nodes + "\n"
         domain = sorted(self.domain.items(), key=lambda x: (x[1], x[0]))
-        self.network += " ".join([var[1] for var in domain]) + "\n"
-        self.network += str(len(self.functions)) + "\n"
+        network += " ".join([var[1] for var in domain]) + "\n"
+        network += str(len(self.functions)) + "\n"
         for fun in self.functions:
-            self.network += str(len(fun)) + " "
-            self.network += " ".join(fun) + "\n"
-        self.network += "\n"
+            network += str(len(fun)) + " "
+            network += " ".join(fun) + "\n"
+        network += "\n"
         for table in self.tables:
-            self.network += str(len(table)) + "\n"
-            self.network += " ".join(table) + "\n"
-        return self.network[:-1]
+            network += str(len(table)) + "\n"
+            network += " ".join(table) + "\n"
+        return network[:-1]
 
     def get_nodes(self):
         """
